@@ -194,7 +194,7 @@ func (n *Net) newLink(address string) *Link {
 }
 
 func (n *Net) newConn(l *Link, rd, wr *Pipe, side string) *Conn {
-	c := &Conn{n: n, L: l, rd: rd, wr: wr, id: len(n.Conns) + 1, side: side}
+	c := &Conn{n: n, L: l, rd: rd, wr: wr, id: len(n.Conns) + 1, side: side, ClosedAt: -1}
 	n.Conns = append(n.Conns, c)
 
 	return c
@@ -428,6 +428,8 @@ type Conn struct {
 
 	Reads, Writes int
 	CloseCalls    int
+	// ClosedAt is the simulated time of the first Close call on this end (-1 = never closed).
+	ClosedAt time.Duration
 }
 
 // ID returns the connection's ordinal.
@@ -597,6 +599,7 @@ func (c *Conn) Close() error {
 		return opErr("close", net.ErrClosed)
 	}
 	c.closed = true
+	c.ClosedAt = c.n.W.Now()
 	c.rd.rwait.wake()
 	c.wr.wwait.wake()
 	c.rd.readerGone = true
